@@ -33,11 +33,43 @@ def main():
     try:
         rc = mod.run(a.tier, seed, replay=replay)
     except Exception:
-        traceback.print_exc()
-        sys.exit(2)
+        sys.exit(max(impl_crash(a.pid, a.tier, seed, 'replay' if replay else 'main run'), crc))
     if drift and rc == 0 and crc == 0 and a.tier == 'quick':
         rc = look_harder(mod, a.pid, a.tier, seed, drift, t0)
     sys.exit(max(rc, crc) if 2 not in (rc, crc) else 2)
+
+
+def impl_crash(pid, tier, seed, what):
+    """an exception that escaped the harness: when it was raised inside the code under verification (innermost frame
+    in <repo>/optiland) on an input the harness generated, the call that raised is a failing input - every harness
+    catches the exceptions its property allows.  Anything else is an infrastructure error (exit 2)."""
+    import hashlib
+    from . import core
+    et, ev, tb = sys.exc_info()
+    frames = traceback.extract_tb(tb)
+    traceback.print_exc()
+    root = os.path.join(os.path.realpath(core.REPO), 'optiland') + os.sep
+    if not frames or not os.path.realpath(frames[-1].filename).startswith(root):
+        return 2
+    text = ''.join(traceback.format_exception(et, ev, tb))
+    rep = {'property': pid, 'kind': 'implementation raised on a generated input', 'tier': tier, 'seed': seed,
+           'during': what, 'failure': {'clause': 'every call with arguments inside the property\'s quantifier succeeds',
+                                        'observed': '%s: %s' % (et.__name__, ev),
+                                        'raised_at': '%s:%d %s' % (os.path.relpath(frames[-1].filename, core.REPO),
+                                                                   frames[-1].lineno, frames[-1].name),
+                                        'harness_call': next(('%s:%d %s' % (os.path.basename(f.filename), f.lineno, f.line)
+                                                              for f in reversed(frames)
+                                                              if os.sep + 'harness' + os.sep in f.filename), None)},
+           'traceback': text,
+           'replay_cmd': 'VERIF_SEED=%d ./check %s --tier %s' % (seed, pid, tier)}
+    d = os.path.join(core.VERIF, 'replays')
+    os.makedirs(d, exist_ok=True)
+    path = os.path.join(d, '%s_crash_%s.json' % (pid, hashlib.sha256(text.encode()).hexdigest()[:10]))
+    json.dump(rep, open(path, 'w'), indent=1)
+    print('VIOLATION property=%s replay=%s' % (pid, path))
+    print('%s FAIL tier=%s seed=%d: the code under verification raised %s on a generated input (%s)'
+          % (pid, tier, seed, et.__name__, rep['failure']['raised_at']))
+    return 1
 
 
 def look_harder(mod, pid, tier, seed, drift, t0):
@@ -56,8 +88,7 @@ def look_harder(mod, pid, tier, seed, drift, t0):
                 with contextlib.redirect_stdout(buf):
                     rc = mod.run(tier, seed + 7919 * k, replay=None)
             except Exception:
-                traceback.print_exc()
-                return 0
+                return 1 if impl_crash(pid, tier, seed + 7919 * k, 'extra seed') == 1 else 0
             if rc == 1:
                 for line in buf.getvalue().split('\n'):
                     if line.startswith('VIOLATION') or ' tier=' in line:
@@ -89,8 +120,11 @@ def run_corpus(mod, pid, tier, seed):
                 with contextlib.redirect_stdout(buf):
                     rc = mod.run(tier, seed, replay=case)
             except Exception:
-                traceback.print_exc()
-                rc = 2
+                rc = impl_crash(pid, tier, seed, 'corpus case ' + os.path.basename(f))
+                if rc == 1:
+                    res['failed'].append(os.path.basename(f))
+                    worst = max(worst, 1)
+                    continue
             if rc == 1:
                 res['failed'].append(os.path.basename(f))
                 print('VIOLATION property=%s replay=%s' % (pid, f))
